@@ -15,7 +15,8 @@ CHECKS = {
              "masking makes dropping invisible pairs value-neutral; normalised metrics are <= 1; reward formulas. The model is tied "
              "to the code by an exact differential run of the real Decision/Reward classes against the model on exhaustive small and "
              "random large matrices, and the optimality of the real Munkres output is decided per case by Lean brute force (<=4x4) or "
-             "the Lean-checked certificate (<=40x40).",
+             "the Lean-checked certificate (<=40x40)."
+             " Decision objects live through earlier calls with other rewards and visibility; the metric list is given in any order; the reward values are checked against the documented combination directly.",
         note=BASE_TB + "scipy.linear_sum_assignment and numpy's generator are not modelled: their outputs are judged per case. "
              "Greedy target-relabelling is claimed only for unique column maxima (argmax tie-breaking).",
         technique="Lean 4 proof over executable model + differential correspondence with the real classes + Lean-checked dual certificates",
@@ -26,7 +27,8 @@ CHECKS = {
              "sums of the NIS values/dimensions of the last min(w,k) steps (deque invariant); the fading detector's metric is (1+d)*sum d^j q_(k-j) "
              "(closed form proved) with dof = mean dimension*(1+d)/(1-d); a maneuver is declared iff metric >= bound(dof); nis(c*nu)=c^2 nis(nu), "
              "nis >= 0 for PSD inverse covariance, and scaling the latest innovation by c >= 1 never undoes a detection (all three detectors). "
-             "Tied to the code by feeding the real detector objects random histories and capturing (metric, alpha, dof) through their test= hook.",
+             "Tied to the code by feeding the real detector objects random histories and capturing (metric, alpha, dof) through their test= hook."
+             " Significances run from 1e-30 to 1 - 1e-9, histories are calibrated to land next to the bound, and measurements come in units from 1000 down to 1e-6 (covariance entries of 1e-12).",
         note=BASE_TB + "chi2.isf is an oracle bound; numpy inv is compared with exact rational inverses to 1e-8; decisions within 1e-7 of the bound are skipped.",
         technique="Lean 4 proof (induction over histories) + differential correspondence with the real detectors",
         ref="5/C17",
@@ -37,7 +39,8 @@ CHECKS = {
              "survivor of positive weight, renormalises to a valid vector (also when every weight is below threshold and model 0 is exactly 0) and "
              "removes exactly the below-threshold models otherwise; an SMM step that closes leaves exactly one model; the mixture covariance is "
              "symmetric PSD; hand-back with one survivor is that model. Tied to the code by running the real StaticMultipleModel/GPB1 objects on "
-             "scripted member filters (2-30 models, underflow patterns) against the model.",
+             "scripted member filters (2-30 models, underflow patterns) against the model."
+             " Cases include states at orbital magnitudes with metre-level covariances (compared on the covariance's own scale), steps without observations, and an independent check of the GPB1 mixing with the filter's own mix_ratio.",
         note=BASE_TB + "Gaussian likelihood values and the chi-square gate bound are oracle inputs computed independently by the harness; member filters are scripted stand-ins.",
         technique="Lean 4 proof over executable model + differential correspondence with the real adaptive filters",
         ref="5/C18",
@@ -48,7 +51,8 @@ CHECKS = {
              "the unique such representative (wrap-point independence); vecResiduals = vecWrapNeg(a-b), turn-invariant, range [-pi,pi); the "
              "measurement update is turn-invariant and invariant under any permutation of the stacked measurement (matrix algebra). Tied to the code "
              "by exact-rational differential runs of the real helpers (seams, 1e6-turn offsets) and metamorphic runs of the real UKF on multi-step, "
-             "mixed radar/optical histories.",
+             "mixed radar/optical histories."
+             " The circular mean is also driven with the weights an unscented filter really uses (centre weight down to -2e10 for alpha = 1e-5), sigma angles wrapped one by one.",
         note=BASE_TB + "sin/cos/arctan2 inside angularMean are library calls (metamorphic checks on the real function only). Float rounding at a wrap "
              "boundary may select the other representative: counted as boundary skip.",
         technique="Lean 4 proof (floor/mod algebra, matrix algebra) + exact differential correspondence + metamorphic runs of the real UKF",
@@ -60,7 +64,8 @@ CHECKS = {
              "common rotation about the vertical and positive scaling, and reflexive; the rectangular window is reflexive and invariant under a "
              "common azimuth rotation with arbitrary re-wrapping (north seam); the azimuth mask admits exactly its arc, wrapping or not; over the "
              "reals, arccos x <= t iff cos t <= x and the limb test arcsin(z/rho) < arcsin(Rl/d) - pi/2 iff the tangent-cone inequality. Tied to the "
-             "code by differential runs of the real predicates (real Radar for the masks) and an independent exact/atan2 geometric oracle.",
+             "code by differential runs of the real predicates (real Radar for the masks) and an independent exact/atan2 geometric oracle."
+             " Fields of view are also built through FieldOfView.fromConfig after another sensor's that shares the first angle; surface sites 1-60 km apart are among the line-of-sight pairs.",
         note=BASE_TB + "numpy norm/arccos/arcsin/arctan2 are library calls (model in algebraic form, equivalence proved over the reals); decisions "
              "within rounding of a boundary are skipped and counted. The partial-occultation lens-area value is range-checked on samples only (not proved).",
         technique="Lean 4 proof (ordered-field algebra + real analysis) + differential correspondence + independent geometric oracle",
@@ -89,7 +94,8 @@ CHECKS = {
              "a second (4.1e-5 s) with exact subtraction and multiplications; a timed run of D seconds (a multiple of the step) takes exactly D/dt steps. The proofs show every "
              "float operation of the three routines to be exact except the quotient S/86400 and the sum J+frac (errors 2^-54 and 2^-32 day), the year guess to be the year or the "
              "next (corrected by the day-of-year test), and the month loop by exhaustion; plus machine-checked witnesses of the repaired and unrepaired second rules. The property "
-             "itself is evaluated on the real code for every case (round trip, strict monotonicity, offset error, floor(D/step) steps, epochs).",
+             "itself is evaluated on the real code for every case (round trip, strict monotonicity, offset error, floor(D/step) steps, epochs)."
+             " Decimal hours go through the real runResonaate, and consecutive run calls are made on a real truth-only scenario whose stored epochs are read back.",
         note=BASE_TB + "IEEE-754 binary64 round-to-nearest-even for + - * / and exact floor on the host (checked bit for bit on every case); CPython datetime arithmetic "
              "(the labelling of the civil time line by `datetime + timedelta`, an hypothesis of timed_run_steps, tied by the bit-exact comparison of getTargetJulianDate); "
              "theorems are for whole seconds (microsecond = 0), instants with microseconds are covered by the bit-exact correspondence only; "
@@ -119,7 +125,8 @@ CHECKS = {
              "returns each stored position/target key exactly once and everything when keys are distinct; the public write methods are rejected. A "
              "witness theorem records the unrepaired count comparison. Tied to the code by running the real EphemerisImporter and "
              "loadImportedObservations/_attachObsMetadata on real SQLite importer files built per case (supersets, subsets, gaps, unrelated agents "
-             "hiding a missing one, duplicate observations), with SHA-256 of the file before and after.",
+             "hiding a missing one, duplicate observations), with SHA-256 of the file before and after."
+             " Importer databases carry Julian dates either converted from the time stamp or as a running scenario writes them (start date plus elapsed seconds), which differ in the last bit at a third of the minutes.",
         note=BASE_TB + "SQLAlchemy/SQLite return what was stored; agents are stand-ins whose importState is the real TargetAgent.importState; the path from the "
              "engine's observation list to the filter update is covered by C08/C09, not here.",
         technique="Lean 4 proof (invariant over the import loop) + differential correspondence on real importer database files",
@@ -132,7 +139,8 @@ CHECKS = {
              "C = P- H^T (the Kalman update for any stacked H), in no-redraw mode the documented variant with A = F P F^T; P- - P+ = K S K^T is PSD, P+ is symmetric, and by the Joseph "
              "form PSD whenever prior and noise are. Tied to the code by running the real UnscentedKalmanFilter on mock linear dynamics/measurements "
              "(1-8 states, stacked observations incl. totals equal to 2n+1, four tunings, multi-step observed/unobserved/forecast-then-missed patterns) against "
-             "the executable model and an exact rational Kalman filter.",
+             "the executable model and an exact rational Kalman filter."
+             " The hand-back of prediction, forecast and update through their result objects runs in fresh interpreters, once with a forecast result applied first and once with an update result first.",
         note=BASE_TB + "numpy cholesky/inv/sqrt are oracle inputs; tolerances scale with the measured conditioning of the exact reference (capped at 1e-4); the list-matrix "
              "executable model and the Mathlib statements are the same formulas written twice.",
         technique="Lean 4 proof (matrix algebra) + differential correspondence with the real UKF on linear systems against an exact Kalman filter",
@@ -146,7 +154,8 @@ CHECKS = {
              "unrepaired quadratic miss list, the per-job reset of sensor_changes and the last-write-wins merge. Tied to the code by real scenarios on real Ray (1-4 radars x 1-5 targets, "
              "all four policies, displaced truths, slow sensors, narrow fields of view, jobs that return a hit and a miss together) in which the harness chooses the order JobExecutor.join processes finished "
              "jobs (FIFO, LIFO, seeded random): visibility/reward/decision matrices, observations, misses, pointing state, estimates, truths and stored rows are "
-             "compared bit for bit across orders, and the processed job sequence of every step is replayed through the model.",
+             "compared bit for bit across orders, and the processed job sequence of every step is replayed through the model."
+             " Cases include serendipitous observations with wide cones (a target reported by several jobs of one sensor in a step) and an agent with id 0; handed_list_order_independent proves that with the engine's list kept sorted every filter is handed the same list, in the same places, for every completion order.",
         note=BASE_TB + "Ray copies objects to workers and ray.wait is complete (only the processing order is chosen); the guarded hook seeds a task job's measurement "
              "noise from the job so that noise does not depend on the worker process; all four decision policies are exercised; with AllVisibleDecision (advanced radars only) several jobs of a step report the same sensor and the model's rule (the report of the highest target id) is compared with the sensor's actual end-of-step state.",
         technique="Lean 4 proof (commutativity + induction over permutations) + real Ray runs under harness-chosen completion orders",
@@ -174,7 +183,8 @@ CHECKS = {
              "for any step/output/span incl. runs past the configured stop; truth and estimate rows are exactly the initial state plus one row per agent held (target tracked) at each output epoch, also when agents join or leave at run time; one call "
              "or several consecutive calls give the same database; a witness theorem records the unrepaired dangling rows. Tied to the code by real scenarios on real "
              "Ray whose SQLite file is audited with SQL (uniqueness, anti-joins for every epoch and agent reference in seven tables, per-epoch counts, timestamp vs "
-             "Julian date, read-back equality with the live objects) and compared with the model's predicted tables; atomicity by fault injection in bulk saves of 4, 700 and 1500 rows; scenarios include a target joining and a target leaving at run time.",
+             "Julian date, read-back equality with the live objects) and compared with the model's predicted tables; atomicity by fault injection in bulk saves of 4, 700 and 1500 rows; scenarios include a target joining and a target leaving at run time."
+             " Output steps of 3-5 physics steps with the configured stop inside a save interval and the run going past it are included.",
         note=BASE_TB + "SQLAlchemy/SQLite transaction semantics are exercised (a failing row in a bulk save), not proved; states are abstracted to row identities in the model.",
         technique="Lean 4 proof (invariant by induction over steps) + SQL audit of real output databases compared with the model",
         ref="5/C09",
@@ -199,7 +209,8 @@ CHECKS = {
              "reached); serendipitous records are observations only, of offered targets that satisfy every constraint, and none when disabled. Tied to the code by running the real "
              "Radar/AdvRadar/Optical collectObservations on ground and space hosts and comparing outcome and reason with the cascade fed by an INDEPENDENT evaluation of each "
              "constraint (vector geometry for line of sight, atan2 angles for both field-of-view shapes across the north seam, masks incl. wrapping ones, range limits, slew budget, "
-             "limb cone), plus the reported measurement against plain trigonometry on the slant-range vector (noise-free equality, 6.5 sigma with noise).",
+             "limb cone), plus the reported measurement against plain trigonometry on the slant-range vector (noise-free equality, 6.5 sigma with noise)."
+             " A real scenario with a slow mount and geostationary targets further apart than one step's slew budget is run as well: reachability is judged on the history of reported observations alone; optical cases at the edge of the Earth's shadow hold equal-size serendipitous targets on both sides of it.",
         note=BASE_TB + "photometric constraints (solar flux, visual magnitude, galactic exclusion, lighting) and the radar range equation are evaluated with the code's own helpers: "
              "their place in the cascade is checked, their physics is not re-derived; cases with a deciding constraint within 1e-9 of its boundary are skipped and counted.",
         technique="Lean 4 proof over an executable cascade model + differential correspondence against an independent geometric evaluation",
@@ -214,7 +225,8 @@ CHECKS = {
              "p/q invert the unit angular momentum (direct and retrograde), h^2+k^2=e^2, radius and areal velocity from equinoctial elements, exact recovery of the eccentric longitude (the arctan2 arguments are (sin F, cos F) themselves); true/eccentric anomaly maps are mutually inverse as unit "
              "vectors. Tied to the code by exact-rational evaluation of every modelled function on the real code's own inputs (coe2eci, flags/branch, singularityCheck, eci2coe angle "
              "selection, sma, eccentricity vector, angular momentum, equinoctial basis, p/q, eqe2eci) and by round trips of the real conversions, Newton solvers and the ECI/COE/EQE "
-             "configuration descriptions over orbits straddling every threshold.",
+             "configuration descriptions over orbits straddling every threshold."
+             " Every configuration is asked for its state twice, the first answer modified in place in between.",
         note=BASE_TB + "arccos/arctan2/sqrt are oracles in the theorems; convergence of the Newton solvers is exercised on the real code only; orbits inside the circular/equatorial "
              "limits are reproduced to 4x the limit, others to 2e-7 relative (arccos resolution near 0/pi). One open known finding: wrapAngle2Pi returns 2*pi for tiny negative input.",
         technique="Lean 4 proof of the element/state identities + exact-rational differential correspondence + real-code round trips",
@@ -232,7 +244,8 @@ CHECKS = {
              "per-column right-hand sides, bit for bit; the real propagate/propagateBulk loop with real impulse events on constant-velocity dynamics against the model's loop; the "
              "epoch expression bit for bit) and by the metamorphic relations evaluated on the real integrators: split vs whole, batch (C, Fortran, transposed-view, strided "
              "layouts) vs single, bulk vs single, two-body vs closed-form Kepler, energy and angular momentum drift, epoch shift across midnight and year ends incl. the force at "
-             "one instant described both ways.",
+             "one instant described both ways."
+             " Batches also mix a low-orbit member (in and out of the Earth's shadow) with always-lit high ones under radiation pressure, so that a quantity computed once per batch instead of once per member shows.",
         note=BASE_TB + "scipy solve_ivp is assumed to approximate a lawful flow within its tolerances: real trajectories are compared to 3e-4 km / 3e-7 km/s per revolution "
              "(epoch-split: 2e-6 km, 1e-3 km with radiation pressure because of the shadow-boundary kink); the loop restarts one ulp after an event, the model at the event time; "
              "convergence of the universal-variable iteration is exercised on the real code only.",
@@ -263,7 +276,8 @@ CHECKS = {
              "transfer-direction rule, the single-pass rule and the choice of the stored observation are characterised exactly. Tied to the code by correspondence of "
              "_calculateVelocities on the coefficients recovered from each real solution, and by the real solvers on arcs generated by the real Kepler propagator (both senses, "
              "e <= 0.7, 2-98 % of a period, extra weight on long-way half-period arcs), re-propagated; the real observation inversion for ground and space sensors; the real "
-             "LambertIOD (both solvers) fed from a real in-memory database with two noise-free radar observations 2-39.5 % of a period apart.",
+             "LambertIOD (both solvers) fed from a real in-memory database with two noise-free radar observations 2-39.5 % of a period apart."
+             " Arcs about other central bodies (Moon, Mars, Venus, Uranus) use the solvers' mu argument; the orbit determination is also driven with observation pairs closer than the configured spacing and older observations stored.",
         note=BASE_TB + "convergence of the universal-variable and Battin iterations is exercised on the real code only (arrival within 1e-3 km + 5e-6 km per second of flight); arcs "
              "are generated and re-propagated with the code's own Kepler solver; transfer angles within 8 deg of 0/180/360 are skipped and counted.",
         technique="Lean 4 proof of arc closure and observation inversion + real solvers on generated arcs + real IOD with a real database",
@@ -275,7 +289,8 @@ CHECKS = {
              "speed omega times the distance from the axis; the site is evaluated at start + t whenever the Julian-date round trip returns the start instant, and a witness "
              "records the unrepaired one-second-early epoch. Tied to the code by a bit-exact comparison of Terrestrial.datetime_start with the time model and by running the "
              "real dynamicsFactory/Terrestrial.propagate path for sites anywhere on Earth, odd-second starts, runs across UTC midnights, the 2016 leap second and year ends, and "
-             "facilities that join after the clock advanced, checking position (< 1 m), Earth-fixed velocity and inertial speed at every step.",
+             "facilities that join after the clock advanced, checking position (< 1 m), Earth-fixed velocity and inertial speed at every step."
+             " Half of the sites have a second facility 2-40 m away built just before them in the same process.",
         note=BASE_TB + "orthogonality of an instant's reduction matrices is a hypothesis of the theorems; the universally quantified Julian-date round trip is C05's (partial there).",
         technique="Lean 4 corollaries of the frame and time theorems + real-code evaluation of the property at every step",
         ref="5/C11",
